@@ -8,7 +8,15 @@ Real LiteDRAMNativePortConverter (Up / Down converter with LiteX StrideConverter
 Watched byte (symbolic user address, lane, initial content): every read response carries the byte last written in user
 command order; one response per read; write data is present whenever the controller side takes it.
 The end-to-end clauses are checked by BOUNDED unrolling from reset (all inputs symbolic) -- labelled bounded.
-Proved lemmas (unbounded): down-converter command splitting (N sub-commands addr*N+i in order, same direction).
+Proved lemmas (unbounded, induction with ghosts on the real elaborated converters incl. the LiteX StrideConverters inside):
+  * DownConverterCommands: N sub-commands addr*N+i in order, same direction;
+  * DownConverterData: narrow write beat i = slice n(i) of the user's data / enables, wide beat consumed with its N-th narrow
+    beat; wide read word = the last N narrow words in lanes n(i), one wide beat per N narrow beats, controller read data
+    never refused while the user accepts;
+  * UpConverterWriteLanes: the wide write beat holds narrow beat i in lane n(i) and the latched chunk mask enables lane n(i)
+    iff chunk i was requested (data placement in LiteX and mask replication in the adapter agree, with and without reverse).
+Bounded (labelled bounded): UpConverterDrain -- after K quiet, responsive cycles following a flush- or cmd.last-terminated
+burst nothing is left inside the up-converter (every accepted read answered, every accepted write issued with its data).
 """
 import z3
 from .common import *
@@ -33,9 +41,17 @@ ASSUMPTIONS = [
     "write_latency+1 >= 1)",
     "first/last markers of the native DATA streams (wdata, rdata) are 0, as in the core and all in-tree masters",
     "per configuration (ratios, reverse, modes)",
+    "composition of the proved down-converter lemmas (commands, write slices, read regrouping) into the port-level statement "
+    "is a paper argument (DESIGN.md); the up-converter's command merging and chunk bookkeeping are covered by bounded "
+    "clauses only",
+    "LiteX StrideConverter / _UpConverter / _DownConverter / SyncFIFO are verified as elaborated inside the converters (not "
+    "trusted), internal signals bound by name via constructor-local capture",
+    "UpConverterDrain: bounded; restricted to ascending chunks inside a wide word (the unrestricted case is the recorded "
+    "finding); write data run-ahead of at most N beats",
 ]
 EXPLANATION = ("bounded contract check (master premise + NativePortSpec environment + watched byte) on the real converters; "
-               "unbounded lemmas for the down-converter's command splitting")
+               "unbounded lemmas for the down-converter's command splitting and both of its data paths and for the "
+               "up-converter's write lane / chunk-mask agreement; bounded quiescence clause for the up-converter")
 
 
 class ConvHarness(Module):
@@ -156,7 +172,225 @@ def down_cmd_contract(cfg):
     return c
 
 
+class DownDataHarness(Module):
+    def __init__(self, cfg):
+        from litex.soc.interconnect import stream as _stream
+        wf, wt = cfg["from"], cfg["to"]
+        self.pf = LiteDRAMNativePort("both", 6, wf)
+        self.pt = LiteDRAMNativePort("both", 6 + log2_int(wf // wt), wt)
+        with capture_locals(LiteDRAMNativePortDownConverter.__init__, _stream._DownConverter.__init__,
+                            _stream._UpConverter.__init__) as cap:
+            self.submodules.conv = LiteDRAMNativePortDownConverter(self.pf, self.pt, reverse=cfg.get("reverse", False))
+        self.L = cap.of(self.conv)
+        dn, up = cap.calls["_DownConverter.__init__"], cap.calls["_UpConverter.__init__"]
+        assert len(dn) == 1 and len(up) == 1, "one narrowing (wdata) and one widening (rdata) LiteX converter expected"
+        self.Lw, self.Lr = dn[0], up[0]
+
+
+def down_data_contract(cfg):
+    """lemmas (unbounded) on the down-converter's data paths (real StrideConverter / _DownConverter / _UpConverter of LiteX
+    as elaborated inside the real LiteDRAMNativePortDownConverter):
+      write: the i-th narrow beat handed to the controller out of a wide beat is slice n(i) of the user's data and byte
+             enables (n(i)=i, or N-1-i with reverse), the wide beat is consumed exactly with its N-th narrow beat;
+      read : the wide word handed to the user is the last N narrow words taken from the controller, word i in slice n(i);
+             one wide beat per N narrow beats; controller read data is never refused while the user accepts data."""
+    h = DownDataHarness(cfg)
+    pf, pt = h.pf, h.pt
+    r = cfg["from"] // cfg["to"]
+    rev = cfg.get("reverse", False)
+    wt, nbt = cfg["to"], cfg["to"] // 8
+    n = lambda i: (r - 1 - i) if rev else i
+    free = [pf.cmd.valid, pf.cmd.we, pf.cmd.addr, pf.cmd.last, pf.cmd.first, pf.wdata.valid, pf.wdata.data, pf.wdata.we,
+            pf.rdata.ready, pt.cmd.ready, pt.wdata.ready, pt.rdata.valid, pt.rdata.data, pf.flush]
+    c = Contract("DownConverterData", h, free, cfg=cfg)
+    CW = r.bit_length() + 1
+    mux, demux, strobe_all = h.Lw["mux"], h.Lr["demux"], h.Lr["strobe_all"]
+    wacc = lambda f: And(f.b(pt.wdata.valid), f.b(pt.wdata.ready))
+    racc = lambda f: And(f.b(pt.rdata.valid), f.b(pt.rdata.ready))
+    uracc = lambda f: And(f.b(pf.rdata.valid), f.b(pf.rdata.ready))
+    # -- write path
+    c.ghost("gw", CW, 0, lambda f: If_(wacc(f), If_(f.g.gw == r - 1, BV(0, CW), f.g.gw + 1), f.g.gw))
+    c.invariant("write_position_tracks_mux", lambda f: And(ULT(f.g.gw, BV(r, CW)), zext(f(mux), CW) == f.g.gw))
+
+    def wslice(f):
+        d, e = f(pf.wdata.data), f(pf.wdata.we)
+        outd, oute = z3.Extract(wt - 1, 0, d), z3.Extract(nbt - 1, 0, e)
+        for i in range(r):
+            k = n(i)
+            outd = If_(f.g.gw == i, z3.Extract((k + 1) * wt - 1, k * wt, d), outd)
+            oute = If_(f.g.gw == i, z3.Extract((k + 1) * nbt - 1, k * nbt, e), oute)
+        return outd, oute
+    c.ensures("narrow_write_beat_i_is_slice_i_of_the_wide_beat", lambda f: And(
+        f.b(pt.wdata.valid) == f.b(pf.wdata.valid),
+        Implies(f.b(pt.wdata.valid), And(f(pt.wdata.data) == wslice(f)[0], f(pt.wdata.we) == wslice(f)[1]))))
+    c.ensures("wide_write_beat_consumed_exactly_with_its_last_narrow_beat", lambda f:
+              f.b(pf.wdata.ready) == And(f.b(pt.wdata.ready), f.g.gw == r - 1))
+    # -- read path
+    c.ghost("gr", CW, 0, lambda f: If_(racc(f), If_(f.g.gr == r - 1, BV(0, CW), f.g.gr + 1), f.g.gr))
+    c.ghost("gfull", "bool", False, lambda f: If_(And(racc(f), f.g.gr == r - 1), True, If_(uracc(f), False, f.g.gfull)))
+    for i in range(r):
+        c.ghost("gd%d" % i, wt, 0, (lambda i: lambda f: If_(And(racc(f), f.g.gr == i), f(pt.rdata.data), f.g["gd%d" % i]))(i))
+    sl = lambda f, i: z3.Extract((n(i) + 1) * wt - 1, n(i) * wt, f(pf.rdata.data))
+    c.invariant("read_group_tracks_demux_and_collected_words", lambda f: And(
+        ULT(f.g.gr, BV(r, CW)), zext(f(demux), CW) == f.g.gr, f.b(strobe_all) == f.g.gfull,
+        *[Implies(Or(f.g.gfull, ULT(BV(i, CW), f.g.gr)), sl(f, i) == f.g["gd%d" % i]) for i in range(r)]))
+    c.ensures("wide_read_word_is_the_last_n_narrow_words_in_order", lambda f: And(
+        f.b(pf.rdata.valid) == f.g.gfull,
+        Implies(f.b(pf.rdata.valid), And(*[sl(f, i) == f.g["gd%d" % i] for i in range(r)]))))
+    c.ensures("controller_read_data_never_refused_while_user_accepts", lambda f: And(
+        f.b(pt.rdata.ready) == Or(Not(f.g.gfull), f.b(pf.rdata.ready)),
+        Implies(f.b(pf.rdata.ready), f.b(pt.rdata.ready))))
+    c.cover("a_wide_read_word_delivered_with_distinct_parts", lambda f: And(uracc(f), f.g.gd0 != f.g["gd%d" % (r - 1)], f.g.gd0 != 0),
+            within=r + 4)
+    c.cover("a_wide_write_beat_consumed", lambda f: And(f.b(pf.wdata.valid), f.b(pf.wdata.ready), f(pf.wdata.we) != 0), within=r + 3)
+    return c
+
+
+class UpHarness(Module):
+    def __init__(self, cfg):
+        wf, wt = cfg["from"], cfg["to"]
+        aw_to = cfg.get("aw_to", 3)
+        self.pf = LiteDRAMNativePort("both", aw_to + log2_int(wt // wf), wf)
+        self.pt = LiteDRAMNativePort("both", aw_to, wt)
+        with capture_locals(LiteDRAMNativePortUpConverter.__init__) as cap:
+            self.submodules.conv = LiteDRAMNativePortUpConverter(self.pf, self.pt, reverse=cfg.get("reverse", False))
+        self.L = cap.of(self.conv)
+
+
+def up_drain_contract(cfg):
+    """bounded (labelled bounded): nothing stays stuck inside the up-converter.  Whenever the master has been quiet (no
+    command on offer) for K consecutive cycles in which the burst was ended (flush asserted, or the last accepted command
+    carried cmd.last) and the memory side was responsive (command and write data taken at once, every outstanding read
+    answered), every accepted read has been answered, every accepted write has been issued to the memory side and the data
+    of every issued memory-side write has been handed over."""
+    h = UpHarness(cfg)
+    pf, pt = h.pf, h.pt
+    r = cfg["to"] // cfg["from"]
+    K = cfg.get("K", 3 * r + 8)
+    free = [pf.cmd.valid, pf.cmd.we, pf.cmd.addr, pf.cmd.last, pf.cmd.first, pf.wdata.data, pf.wdata.we, pf.wdata.valid,
+            pf.rdata.ready, pf.flush, pt.cmd.ready, pt.wdata.ready, pt.rdata.valid, pt.rdata.data]
+    c = Contract("UpConverterDrain", h, free, cfg=cfg)
+    CW = 6
+    uacc = lambda f: And(f.b(pf.cmd.valid), f.b(pf.cmd.ready))
+    tacc = lambda f: And(f.b(pt.cmd.valid), f.b(pt.cmd.ready))
+    uwd = lambda f: And(f.b(pf.wdata.valid), f.b(pf.wdata.ready))
+    twd = lambda f: And(f.b(pt.wdata.valid), f.b(pt.wdata.ready))
+    trd = lambda f: And(f.b(pt.rdata.valid), f.b(pt.rdata.ready))
+    urd = lambda f: And(f.b(pf.rdata.valid), f.b(pf.rdata.ready))
+    one = lambda b: If_(b, BV(1, CW), BV(0, CW))
+    # master premise
+    c.ghost("pv", "bool", False, lambda f: And(f.b(pf.cmd.valid), Not(f.b(pf.cmd.ready))))
+    c.ghost("pwe", 1, 0, lambda f: f(pf.cmd.we))
+    c.ghost("pa", len(pf.cmd.addr), 0, lambda f: f(pf.cmd.addr))
+    c.ghost("pl", 1, 0, lambda f: f(pf.cmd.last))
+    c.assume("command_held_until_accepted", lambda f: Implies(f.g.pv, And(
+        f.b(pf.cmd.valid), f(pf.cmd.we) == f.g.pwe, f(pf.cmd.addr) == f.g.pa, f(pf.cmd.last) == f.g.pl)))
+    c.assume("read_data_always_accepted", lambda f: f.b(pf.rdata.ready))
+    c.ghost("owed", CW, 0, lambda f: f.g.owed + one(And(uacc(f), f.b(pf.cmd.we))) - one(uwd(f)))    # write cmds - data beats (signed)
+    c.assume("write_data_offered_no_later_than_its_command", lambda f: And(
+        Implies(And(f.b(pf.cmd.valid), f.b(pf.cmd.we), f.g.owed >= 0), f.b(pf.wdata.valid)),
+        Implies(f.g.owed > 0, f.b(pf.wdata.valid)),
+        f.g.owed >= BV(-r, CW)))                                                                      # bounded run-ahead
+    # restriction, as in the end-to-end clauses: the unrestricted up-converter is a recorded finding (repeated or
+    # descending chunks inside one wide word are paired / counted wrongly); consecutive commands of one direction into one
+    # wide word use strictly increasing chunks
+    lr = log2_int(r)
+    c.ghost("prev_ok", "bool", False, lambda f: If_(uacc(f), True, f.g.prev_ok))
+    c.ghost("prev_addr", len(pf.cmd.addr), 0, lambda f: If_(uacc(f), f(pf.cmd.addr), f.g.prev_addr))
+    c.ghost("prev_we", 1, 0, lambda f: If_(uacc(f), f(pf.cmd.we), f.g.prev_we))
+    hi = lambda a: z3.Extract(len(pf.cmd.addr) - 1, lr, a)
+    lo = lambda a: z3.Extract(lr - 1, 0, a)
+    c.assume("chunks_ascend_within_a_wide_word", lambda f: Implies(
+        And(f.b(pf.cmd.valid), f.g.prev_ok, hi(f(pf.cmd.addr)) == hi(f.g.prev_addr), f(pf.cmd.we) == f.g.prev_we),
+        UGT(lo(f(pf.cmd.addr)), lo(f.g.prev_addr))))
+    # memory side: answers only outstanding reads
+    c.ghost("out", CW, 0, lambda f: f.g.out + one(And(tacc(f), Not(f.b(pt.cmd.we)))) - one(trd(f)))
+    c.assume("memory_answers_only_outstanding_reads", lambda f: Implies(f.b(pt.rdata.valid), f.g.out != 0))
+    # bookkeeping
+    c.ghost("reads", CW, 0, lambda f: f.g.reads + one(And(uacc(f), Not(f.b(pf.cmd.we)))) - one(urd(f)))
+    c.ghost("wpend", "bool", False, lambda f: If_(And(uacc(f), f.b(pf.cmd.we)), True,
+                                                  If_(And(tacc(f), f.b(pt.cmd.we)), False, f.g.wpend)))
+    c.ghost("twowed", CW, 0, lambda f: f.g.twowed + one(And(tacc(f), f.b(pt.cmd.we))) - one(twd(f)))
+    c.ghost("ended", "bool", False, lambda f: If_(uacc(f), f.b(pf.cmd.last), f.g.ended))
+    responsive = lambda f: And(f.b(pt.cmd.ready), f.b(pt.wdata.ready), f.b(pt.rdata.valid) == (f.g.out != 0))
+    quiet = lambda f: And(Not(f.b(pf.cmd.valid)), Or(f.b(pf.flush), f.g.ended), responsive(f))
+    c.ghost("q", CW, 0, lambda f: If_(quiet(f), If_(f.g.q == K, f.g.q, f.g.q + 1), BV(0, CW)))
+    c.bounded("every_accepted_read_answered_once_the_burst_is_ended_and_the_port_quiet",
+              lambda f: Implies(f.g.q == K, f.g.reads == 0))
+    c.bounded("every_accepted_write_issued_and_its_data_delivered_once_the_port_is_quiet",
+              lambda f: Implies(f.g.q == K, And(Not(f.g.wpend), f.g.twowed == 0)))
+    c.bounded("never_more_read_beats_than_read_commands", lambda f: f.g.reads >= 0)
+    c.cover("quiet_after_a_flush_terminated_partial_read", lambda f: And(f.g.q == K, Not(f.g.ended)), within=K + 6)
+    return c
+
+
+class UpDataHarness(Module):
+    def __init__(self, cfg):
+        from litex.soc.interconnect import stream as _stream
+        wf, wt = cfg["from"], cfg["to"]
+        aw_to = cfg.get("aw_to", 3)
+        self.pf = LiteDRAMNativePort("both", aw_to + log2_int(wt // wf), wf)
+        self.pt = LiteDRAMNativePort("both", aw_to, wt)
+        with capture_locals(LiteDRAMNativePortUpConverter.__init__, _stream._UpConverter.__init__) as cap:
+            self.submodules.conv = LiteDRAMNativePortUpConverter(self.pf, self.pt, reverse=cfg.get("reverse", False))
+        self.L = cap.of(self.conv)
+        up = cap.calls["_UpConverter.__init__"]
+        assert len(up) == 1, "one widening (wdata) LiteX converter expected"
+        self.Lw = up[0]
+
+
+def up_write_lanes_contract(cfg):
+    """lemmas (unbounded) on the up-converter's write data path: the wide beat handed on by the write StrideConverter holds
+    the data and byte enables of the i-th narrow beat of the group in lane n(i) (n(i)=i, or N-1-i with reverse), and the
+    chunk-select mask latched for that wide beat enables lane n(i) exactly when chunk i was requested (sel[i]) -- the two
+    sites (data placement in LiteX, mask replication in the adapter) must agree on the lane order."""
+    h = UpDataHarness(cfg)
+    pf, pt, L = h.pf, h.pt, h.L
+    r = cfg["to"] // cfg["from"]
+    rev = cfg.get("reverse", False)
+    wf, nbf = cfg["from"], cfg["from"] // 8
+    n = lambda i: (r - 1 - i) if rev else i
+    free = [pf.cmd.valid, pf.cmd.we, pf.cmd.addr, pf.cmd.last, pf.cmd.first, pf.wdata.data, pf.wdata.we, pf.wdata.valid,
+            pf.rdata.ready, pf.flush, pt.cmd.ready, pt.wdata.ready, pt.rdata.valid, pt.rdata.data]
+    c = Contract("UpConverterWriteLanes", h, free, cfg=cfg)
+    CW = r.bit_length() + 1
+    wc, cb = L["wdata_converter"], L["cmd_buffer"]
+    wdata_sel, wdata_chunk, wbuf = L["wdata_sel"], L["wdata_chunk"], L["wdata_buffer"]
+    demux, strobe_all = h.Lw["demux"], h.Lw["strobe_all"]
+    sacc = lambda f: And(f.b(wc.sink.valid), f.b(wc.sink.ready))
+    oacc = lambda f: And(f.b(wc.source.valid), f.b(wc.source.ready))
+    c.ghost("gi", CW, 0, lambda f: If_(sacc(f), If_(f.g.gi == r - 1, BV(0, CW), f.g.gi + 1), f.g.gi))
+    c.ghost("gfull", "bool", False, lambda f: If_(And(sacc(f), f.g.gi == r - 1), True, If_(oacc(f), False, f.g.gfull)))
+    for i in range(r):
+        c.ghost("gd%d" % i, wf, 0, (lambda i: lambda f: If_(And(sacc(f), f.g.gi == i), f(wc.sink.data), f.g["gd%d" % i]))(i))
+        c.ghost("ge%d" % i, nbf, 0, (lambda i: lambda f: If_(And(sacc(f), f.g.gi == i), f(wc.sink.we), f.g["ge%d" % i]))(i))
+    sld = lambda f, i: z3.Extract((n(i) + 1) * wf - 1, n(i) * wf, f(wc.source.data))
+    sle = lambda f, i: z3.Extract((n(i) + 1) * nbf - 1, n(i) * nbf, f(wc.source.we))
+    c.invariant("write_group_tracks_demux_and_collected_beats", lambda f: And(
+        ULT(f.g.gi, BV(r, CW)), zext(f(demux), CW) == f.g.gi, f.b(strobe_all) == f.g.gfull,
+        *[Implies(Or(f.g.gfull, ULT(BV(i, CW), f.g.gi)), And(sld(f, i) == f.g["gd%d" % i], sle(f, i) == f.g["ge%d" % i]))
+          for i in range(r)]))
+    c.ensures("wide_write_beat_holds_narrow_beat_i_in_lane_n_i", lambda f: And(
+        f.b(wc.source.valid) == f.g.gfull,
+        Implies(f.b(wc.source.valid), And(*[And(sld(f, i) == f.g["gd%d" % i], sle(f, i) == f.g["ge%d" % i])
+                                            for i in range(r)]))))
+    load = lambda f: And(f.b(cb.source.valid), f.b(cb.source.we), z3.Extract(r - 1, r - 1, f(wdata_chunk)) == 1)
+    selbit = lambda f, i: z3.Extract(i, i, f(cb.source.sel))
+    nsel = lambda f, i: z3.Extract((n(i) + 1) * nbf - 1, n(i) * nbf, f.nx(wdata_sel))
+    c.ensures("latched_chunk_mask_enables_lane_n_i_iff_chunk_i_requested", lambda f: Implies(load(f), And(*[
+        nsel(f, i) == If_(selbit(f, i) == 1, BV(2 ** nbf - 1, nbf), BV(0, nbf)) for i in range(r)])))
+    c.ensures("byte_enables_handed_to_the_buffer_are_the_converted_enables_under_the_latched_mask", lambda f: And(
+        f(wbuf.sink.we) == (f(wc.source.we) & f(wdata_sel)), f(wbuf.sink.data) == f(wc.source.data),
+        f.b(wbuf.sink.valid) == f.b(wc.source.valid)))
+    c.cover("a_partial_mask_latched", lambda f: And(load(f), f(cb.source.sel) == 1), within=r + 10)
+    return c
+
+
+UP_LANE_CFGS = [dict(to=16, **{"from": 8}), dict(to=32, **{"from": 8}), dict(to=16, reverse=True, **{"from": 8}),
+                dict(to=32, reverse=True, **{"from": 8}), dict(to=64, reverse=True, **{"from": 16}), dict(to=64, **{"from": 8})]
 UP_CFGS = [dict(to=16, **{"from": 8}), dict(to=32, **{"from": 8}), dict(to=16, reverse=True, **{"from": 8})]
+DOWN_DATA_CFGS = [dict(to=8, **{"from": 16}), dict(to=8, **{"from": 32}), dict(to=8, reverse=True, **{"from": 16}),
+                  dict(to=8, reverse=True, **{"from": 32}), dict(to=16, **{"from": 64}), dict(to=8, **{"from": 64})]
 DOWN_CFGS = [dict(to=8, **{"from": 16}), dict(to=8, **{"from": 32}), dict(to=8, reverse=True, **{"from": 16})]
 
 
@@ -179,4 +413,12 @@ def tasks(tier):
                         timeout_ms=2400000, difftest_cycles=80, oneshot=True))
     for cfg in DOWN_CFGS:
         out.append(dict(fn="down_cmd_contract", cfg=cfg, modes=["inductive", "cover", "difftest"], weight=2))
+    for cfg in UP_CFGS if tier != "quick" else UP_CFGS[:2]:
+        d = 3 * (cfg["to"] // cfg["from"]) + 8 + (9 if tier == "quick" else 13)
+        out.append(dict(fn="up_drain_contract", cfg=dict(cfg, depth=d), modes=["bounded", "cover"], depth=d, weight=10,
+                        timeout_ms=1200000, oneshot=True))
+    for cfg in UP_LANE_CFGS:
+        out.append(dict(fn="up_write_lanes_contract", cfg=cfg, modes=["inductive", "cover", "difftest"], weight=2))
+    for cfg in DOWN_DATA_CFGS:
+        out.append(dict(fn="down_data_contract", cfg=cfg, modes=["inductive", "cover", "difftest"], weight=2))
     return out
